@@ -1166,6 +1166,8 @@ def grid_layout(context, box, bottom_space, skip_stack, containing_block,
         else:
             child_skip_stack = None
         child = child.deepcopy()
+        # Style is shared with the original box, and may be changed for this layout
+        child.style = child.style.copy()
         child.position_x = columns_positions[x]
         child.position_y = rows_positions[y] - skip_height
         resolve_percentages(child, box)
